@@ -13,9 +13,11 @@ func init() { register("C07", checkC07) }
 
 func checkC07(cx *Ctx, r *Report) {
 	w, fx := cx.W, cx.Fx
+	cx.checkReceivedValuesUnchanged(r)
 	// a request that makes the handler panic is not accepted: the panic discipline on the three request handlers (shared with C09)
 	cx.checkNoPanicOnRequestPaths(r, kSSO, kLogout, kAttr)
 	cx.checkRequestTimeLayout(r)
+	cx.checkVerifierRefusals(r)
 	r.Clauses = []string{
 		"C07 is a liveness property over all serialisations; acceptance itself is not decided. Decided are necessary conditions whose violation provably rejects some conformant request:",
 		"decode tables: every field of the request types the handlers read (AuthnRequest, LogoutRequest, AttributeQuery, SOAP envelope, NameID, Subject, Conditions, Signature and children, SP metadata) is decoded under the schema's name / namespace / kind",
@@ -704,4 +706,114 @@ func (cx *Ctx) checkRequestTimeLayout(r *Report) {
 	if n == 0 {
 		r.Ok("R-STRICT", "sso:conditions-layout", "", "no call of the time check in the SSO handler's scope (judged by C06)")
 	}
+}
+
+// checkVerifierRefusals: the signature-verification helpers (packages signature and serviceprovider) refuse a message
+// only for what a verifier has to refuse: a callee's verdict (parser, base64, the cryptographic check), a part that is
+// absent (nil / empty / no certificate), a key of another type than the algorithm needs, or an algorithm that is not
+// supported. A refusal decided by anything else - the position of the Signature among the child tokens, the length of
+// a value - turns away correctly signed messages in one of their legal serialisations.
+func (cx *Ctx) checkVerifierRefusals(r *Report) {
+	w, fx := cx.W, cx.Fx
+	var roots []*ssa.Function
+	for _, k := range []string{"serviceprovider.(*ServiceProvider).ValidatePostSignature", "serviceprovider.(*ServiceProvider).ValidateRedirectSignature"} {
+		if f := w.Func(k); f != nil {
+			roots = append(roots, f)
+		} else {
+			r.Fail("R-REJECT", "verifier:"+k, "", "anchor not found")
+		}
+	}
+	n := 0
+	for _, fn := range w.sortedFuncs(w.scopeOf(roots...)) {
+		pk := shortPkg(fn.Pkg.Pkg.Path())
+		if pk != "signature" && pk != "serviceprovider" {
+			continue
+		}
+		res := fn.Signature.Results()
+		if res.Len() == 0 || !isErrorTypeT(res.At(res.Len()-1).Type()) {
+			continue
+		}
+		aps, ok := fx.atomPaths(fn, 8192)
+		if !ok {
+			continue
+		}
+		n++
+		bad := ""
+		for i := range aps {
+			p := &aps[i]
+			rv := fx.retVal(p, res.Len()-1)
+			if rv == nil || !isFreshError(fx.throughIdentity(rv)) {
+				continue // nil, or a callee's verdict handed on
+			}
+			if len(p.Atoms) == 0 {
+				continue
+			}
+			// the decision that led here: the last condition of the path that belongs to this function
+			var last *Atom
+			for j := len(p.Atoms) - 1; j >= 0; j-- {
+				if in, isIn := p.Atoms[j].Cond.(ssa.Instruction); isIn && in.Parent() == fn {
+					last = &p.Atoms[j]
+					break
+				}
+			}
+			if last == nil {
+				continue
+			}
+			okReason := false
+			switch {
+			case last.Op == "NIL" && !last.Neg, last.Op == "EMPTY" && !last.Neg:
+				okReason = true // a part is absent / empty
+			case last.Op == "NIL" && last.Neg:
+				// an error found non-nil: a callee's verdict, reported with an error made here
+				if x, _, isNT := nilTest(last.Cond); isNT && isErrorType(x.Type()) {
+					okReason = true
+				}
+			case last.Op == "TRUE" && last.Neg:
+				// `key, ok := pub.(*rsa.PublicKey); if !ok`, or a boolean verdict of a library verifier
+				okReason = true
+			case strings.HasPrefix(last.Op, "CALL:") && last.Neg:
+				okReason = true // a boolean verdict (dsa.Verify, bytes.Equal ...) found false
+			case (last.Op == "EQ" || last.Op == "LT") && (strings.HasPrefix(last.A, "const:") || strings.HasPrefix(last.B, "const:")):
+				// a comparison with a constant: none of the supported algorithm identifiers (strings; the default
+				// case of a switch), or a property of the signature's numbers (math/big) - not of the document's layout
+				if bo, isB := stripNot(last.Cond).(*ssa.BinOp); isB {
+					for _, o := range []ssa.Value{bo.X, bo.Y} {
+						if _, isK := o.(*ssa.Const); isK {
+							continue
+						}
+						if isStringType(o.Type()) && last.Op == "EQ" && last.Neg {
+							okReason = true
+						}
+						if c, isC := o.(*ssa.Call); isC && strings.Contains(calleeName(c), "math/big.") {
+							okReason = true
+						}
+					}
+				}
+			case last.Op == "LT" && strings.Contains(last.A+last.B, "len("):
+				okReason = true // nothing left in a list (no certificate, no key descriptor)
+			}
+			if !okReason {
+				// a property of what a codec of the signature value returned (trailing bytes after the ASN.1 structure)
+				if sv := emptySubject(*last); sv != nil {
+					var c *ssa.Call
+					switch y := sv.(type) {
+					case *ssa.Call:
+						c = y
+					case *ssa.Extract:
+						c, _ = y.Tuple.(*ssa.Call)
+					}
+					if c != nil {
+						if nm := calleeName(c); strings.HasPrefix(nm, "encoding/asn1.") || strings.HasPrefix(nm, "encoding/base64.") || strings.Contains(nm, "math/big.") {
+							okReason = true
+						}
+					}
+				}
+			}
+			if !okReason {
+				bad = "refuses under " + last.String() + " at " + w.InstrPos(p.Ret)
+			}
+		}
+		r.Check(bad == "", "R-REJECT", "verifier:"+w.FuncKey(fn), w.FnPos(fn), "refuses only for a callee's verdict, an absent part, a key type or an unsupported algorithm", w.FuncKey(fn)+" "+bad+": that is not a reason a verifier has - correctly signed messages in another legal serialisation are turned away")
+	}
+	r.Check(n >= 3, "R-REJECT", "verifier:#functions", "", fmt.Sprintf("%d verification helpers examined", n), fmt.Sprintf("only %d verification helpers found", n))
 }
